@@ -127,11 +127,22 @@ def parseOracle (toks : List String) : List (Nat × List Nat × Option (List Nat
       | _ => none
     | _ => none
 
-def oracleCodec (tbl : List (Nat × List Nat × Option (List Nat))) : Codec :=
+/-- oracle entries `D<code>:<in>=PANIC`: the real decoder panicked on this input -/
+def parsePanics (toks : List String) : List (Nat × List Nat) :=
+  toks.filterMap fun t =>
+    match t.toList with
+    | 'D' :: c :: ':' :: rest =>
+      match (String.ofList rest).splitOn "=" with
+      | [i, "PANIC"] => (fromHex i).map fun inb => (c.toNat, inb)
+      | _ => none
+    | _ => none
+
+def oracleCodec (tbl : List (Nat × List Nat × Option (List Nat))) (pans : List (Nat × List Nat) := []) : Codec :=
   { dec := fun code inp => match tbl.find? (fun e => e.1 == code && e.2.1 == inp) with
       | some e => e.2.2
       | none => none,
-    encLen := encLenExec }
+    encLen := encLenExec,
+    panics := fun code inp => pans.any fun e => e.1 == code && e.2 == inp }
 
 def parseAddr (s : String) : Option Nat :=
   match s.toList with
@@ -198,6 +209,6 @@ def handle (toks : List String) : String :=
           match t.splitOn ":" with
           | ["T", c, o] => (do pure (retimed (← c.toNat?) (← o.toNat?)) : Option _)
           | _ => none
-        runLine (oracleCodec (parseOracle orc)) dom timed Srv.init ops []
+        runLine (oracleCodec (parseOracle orc) (parsePanics orc)) dom timed Srv.init ops []
 
 end SA.DnsServer
